@@ -23,7 +23,7 @@ def functions(ns):
 def instantiations(tier, seed):
     rng = random.Random(seed * 401 + 13)
     out = []
-    skels = F.pl_family(tier, seed, n_quick=30, n_thorough=1200)
+    skels = F.pl_family(tier, seed, n_quick=90, n_thorough=1200)
     reps = 2 if tier == "quick" else 5
     for k, sk in enumerate(skels):
         names = F.ALT_NAMES[(k + seed) % len(F.ALT_NAMES)]
